@@ -55,6 +55,9 @@ func (f *MakeSequence) Call(s *slip.Scope, args slip.List, depth int) (result sl
 		element = v
 	}
 	size := getFixnumArg(s, args[1], "size", depth)
+	if slip.ArrayMaxDimension < size {
+		slip.TypePanic(s, depth, "size", args[1], "non-negative fixnum no larger than array-dimension-limit")
+	}
 	switch rt := args[0].(type) {
 	case slip.Symbol:
 		switch rt {
